@@ -258,8 +258,8 @@ def bell_m2_interval(J, ac, bc, av, bv, n_coarse=96, k_fine=None, max_cand=2500)
     lambda_max(c_0 O_0 + c_1 O_1) <= |c_0| + |c_1|, which a deterministic choice attains; hence
         optimum = max(best deterministic, max_{tA, tB} f(tA, tB)),  f = lambda_max of the 4x4 Bell operator.
     If t* maximises f with top eigenvector psi, g(t) = <psi|B(t)|psi> <= f(t) is a trigonometric polynomial maximal at
-    t*, so f(t) >= g(t) >= f(t*) - C |t - t*|^2 / 2 with C a bound on the Hessian norm of g: the maximum over a grid of
-    spacing h is within C h^2 / 4 of the global maximum.  Returns (lo, hi, info) or raises OracleFailure when the
+    t*, so f(t) >= g(t) >= f(t*) - (cAA dA^2 + 2 cAB |dA dB| + cBB dB^2)/2 with c.. bounds on the second derivatives of g:
+    the maximum over a cell-centred grid of spacing h is within (cAA + 2 cAB + cBB) h^2 / 8 of the global maximum.  Returns (lo, hi, info) or raises OracleFailure when the
     landscape is too flat for the two-level refinement.
     """
     J, ac, bc = np.asarray(J, dtype=float), np.asarray(ac, dtype=float), np.asarray(bc, dtype=float)
@@ -270,26 +270,43 @@ def bell_m2_interval(J, ac, bc, av, bv, n_coarse=96, k_fine=None, max_cand=2500)
     cAA = sA * (abs(J[1, 0]) * beta + abs(J[1, 1]) * beta + abs(ac[1]))
     cBB = sB * (abs(J[0, 1]) * alpha + abs(J[1, 1]) * alpha + abs(bc[1]))
     cAB = sA * sB * abs(J[1, 1])
-    C = max(cAA + cAB, cBB + cAB) * (1 + 1e-9) + 1e-300
+    # drop bound for a displacement (dA, dB):  (cAA dA^2 + 2 cAB |dA dB| + cBB dB^2) / 2,  |dA|, |dB| <= h/2
+    C = (cAA + 2 * cAB + cBB) * (1 + 1e-9)
     hc = 2 * np.pi / n_coarse
     grid = (np.arange(n_coarse) + 0.5) * hc
-    fc = _lam_max_grid(J, ac, bc, av, bv, grid[:, None], grid[None, :])
+    # a party whose second observable does not enter the expression at all: f is constant in that angle
+    gA = grid if cAA + cAB > 0 else np.array([0.0])
+    gB = grid if cBB + cAB > 0 else np.array([0.0])
+    fc = _lam_max_grid(J, ac, bc, av, bv, gA[:, None], gB[None, :])
     L0 = float(fc.max())
-    slack_c = C * hc * hc / 4
+    slack_c = C * hc * hc / 8
     cand = np.argwhere(fc >= L0 - slack_c - 1e-12)
     if len(cand) > max_cand:
-        raise OracleFailure("bell oracle: flat landscape")
+        # flat landscape (e.g. f identically 0): one finer single-level grid, same remainder bound
+        n_flat = 256
+        hfl = 2 * np.pi / n_flat
+        gfl = (np.arange(n_flat) + 0.5) * hfl
+        gA2 = gfl if len(gA) > 1 else gA
+        gB2 = gfl if len(gB) > 1 else gB
+        ffl = _lam_max_grid(J, ac, bc, av, bv, gA2[:, None], gB2[None, :])
+        L1 = max(L0, float(ffl.max()))
+        scale = bell_scale(J, ac, bc, av, bv)
+        hi_q = float(ffl.max()) + C * hfl * hfl / 8 + 1e-12 * max(1.0, scale)
+        idx = np.unravel_index(int(np.argmax(ffl)), ffl.shape)
+        return max(cl, L1), max(cl, hi_q), {"classical": cl, "qubit_lo": L1, "qubit_hi": hi_q, "theta": (float(gA2[idx[0]]), float(gB2[idx[1]])), "C": C, "ncand": int(len(cand)), "scale": scale}
     if k_fine is None:
         k_fine = 16 if len(cand) <= 100 else (8 if len(cand) <= 400 else 4)
     hf = hc / k_fine
     off = (np.arange(k_fine) + 0.5) * hf - hc / 2
-    tA = grid[cand[:, 0]][:, None, None] + off[None, :, None]
-    tB = grid[cand[:, 1]][:, None, None] + off[None, None, :]
+    offA = off if len(gA) > 1 else np.array([0.0])
+    offB = off if len(gB) > 1 else np.array([0.0])
+    tA = gA[cand[:, 0]][:, None, None] + offA[None, :, None]
+    tB = gB[cand[:, 1]][:, None, None] + offB[None, None, :]
     ff = _lam_max_grid(J, ac, bc, av, bv, tA, tB)
     L1 = max(L0, float(ff.max()))
     idx = np.unravel_index(int(np.argmax(ff)), ff.shape)
     best_t = (float(np.broadcast_to(tA, ff.shape)[idx]), float(np.broadcast_to(tB, ff.shape)[idx]))
-    hi_q = float(ff.max()) + C * hf * hf / 4
+    hi_q = float(ff.max()) + C * hf * hf / 8
     scale = bell_scale(J, ac, bc, av, bv)
     hi_q += 1e-12 * max(1.0, scale)
     return max(cl, L1), max(cl, hi_q), {"classical": cl, "qubit_lo": L1, "qubit_hi": hi_q, "theta": best_t, "C": C, "ncand": int(len(cand)), "scale": scale}
